@@ -190,7 +190,7 @@ pub fn run(ctx: &Ctx, rep: &mut Report) {
     rep.assume(ASSUME_REF);
     rep.assume("private keys whose reference signing loop needs more than 400 iterations are discarded and counted (pathological inconsistent keys); C13 covers their no-panic side");
     let max_msg = if ctx.quick() { 4096 } else { 262_144 };
-    run_generated(ctx, rep, "generated", ctx.n(6000, 100_000), || strategy(max_msg), check);
+    run_generated(ctx, rep, "generated", ctx.n(20_000, 200_000), || strategy(max_msg), check);
 }
 
 pub fn replay(_ctx: &Ctx, sub: &str, case: &Value) -> Option<CheckResult> {
